@@ -122,6 +122,7 @@ def glob : String → Option Val
   | "__ptera_suspend" => some (fn "__ptera_suspend")
   | "__ptera_resume" => some (fn "__ptera_resume")
   | "__ptera_PteraNameError" => some (cls "PteraNameError")
+  | "__ptera_NameError" => some (cls "NameError")
   | "__ptera_ABSENT" => some .absent
   | "__ptera_frame" => some (.obj "frame" [])
   | _ => none
